@@ -707,6 +707,43 @@ theorem conservation_monitor {env : Env} {s s' : State} {p : Packet} {resp : Res
     intro hu ha
     exact hk ⟨hu, ha⟩
 
+theorem amap_eqv_refl {K : Type} [DecidableEq K] (m : AMap K) : m.eqv m = true := by
+  unfold AMap.eqv
+  simp
+
+theorem sameState_refl (s : State) : sameState s s = true := by
+  unfold sameState sameBank sameTok sameList
+  simp [amap_eqv_refl]
+
+theorem unkept_monitor {env : Env} {s s' : State} {p : Packet} {resp : Resp} (h : recv env s p = .ok (s', resp)) :
+    c11_unkept_unchanged { env := env, pre := s, op := .recv p, ok := true, resp := resp, post := s' } = true := by
+  unfold c11_unkept_unchanged
+  simp only [Bool.or_eq_true]
+  by_cases hk : p.underOk = true ∧ resp.ack = .given
+  · left; unfold kept; simp [hk.1, hk.2]
+  · right
+    have hn : p.underOk = false ∨ resp.ack ≠ .given := by
+      by_cases hu : p.underOk = true
+      · exact Or.inr (fun ha => hk ⟨hu, ha⟩)
+      · exact Or.inl (by simpa using hu)
+    rw [(recv_unkept h hn).1]
+    exact sameState_refl s
+
+theorem prior_monitor {env : Env} {s s' : State} {p : Packet} {resp : Resp} (hM : ModuleInv env s)
+    (h : recv env s p = .ok (s', resp)) :
+    c11_prior_untouched { env := env, pre := s, op := .recv p, ok := true, resp := resp, post := s' } = true := by
+  unfold c11_prior_untouched
+  simp only [Bool.not_true, Bool.false_or, Bool.or_eq_true, List.all_eq_true, bne_iff_ne, ne_eq, decide_eq_true_eq]
+  by_cases hdeg : degenerate p = true
+  · exact Or.inl hdeg
+  · right
+    have hsrc : Credit.src p.credit ≠ p.receiver.bytes := by
+      intro e; apply hdeg; unfold degenerate; simp [e]
+    intro k _
+    by_cases hk : k.1 = p.receiver.bytes
+    · right; rw [hk]; exact prior_untouched h hM hsrc k.2
+    · left; exact hk
+
 /-! ## non-vacuity: concrete states meet the hypotheses and every branch really happens -/
 
 def exEnv : Env :=
